@@ -14,6 +14,11 @@ def sites(f):
         c = callee(n) or ""
         k = n.get("k")
         in_dbg = any(m.startswith("debug_assert") for a in (n,) + parents for m in mac_names(a))
+        origin = None
+        for a in reversed(parents):
+            if a.get("k") == "blockexpr" and a.get("inlined_from") and not str(a["inlined_from"]).startswith("closure "):
+                origin = str(a["inlined_from"]).split("::")[-1]
+                break
         if k in ("call", "mcall") and c.startswith("core::panicking"):
             names = mac_names(n)
             outer = None
@@ -25,24 +30,26 @@ def sites(f):
             if site in seen_mac:
                 continue
             seen_mac.add(site)
-            out.append({"kind": "macro", "what": outer or "panic", "node": n})
+            out.append({"kind": "macro", "what": outer or "panic", "node": n, "origin": origin})
         elif k == "mcall" and n["name"] in ("unwrap", "expect") and ("option::Option" in (n.get("path") or "") or "result::Result" in (n.get("path") or "")):
             kind = "unwrap-in-debug_assert" if in_dbg else "unwrap"
-            out.append({"kind": kind, "what": n["name"], "node": n})
+            out.append({"kind": kind, "what": n["name"], "node": n, "origin": origin})
         elif k == "index" and not n.get("mac"):
             bt = (n["e"].get("aty") or n["e"].get("ty") or "")
             if "HashMap" in bt or "ExprMap" in bt or "Context" in bt or "SparseExprMap" in bt or "DenseExpr" in bt:
                 continue
-            out.append({"kind": "index", "what": show(n)[:60], "node": n})
+            out.append({"kind": "index", "what": show(n)[:60], "node": n, "origin": origin})
         elif k == "assignop" and n["op"] in ("-=", "-") and (n["l"].get("ty") or "") in ("u8", "u16", "u32", "u64", "usize", "u128"):
-            out.append({"kind": "decrement", "what": show(n)[:60], "node": n})
+            out.append({"kind": "decrement", "what": show(n)[:60], "node": n, "origin": origin})
     return out
 
 
 def keyed(fpath, ss):
     cnt = {}
     for s_ in ss:
-        base = "%s:%s:%s" % (fpath.split("::")[-1], s_["kind"], s_["what"] if s_["kind"] in ("macro", "unwrap", "unwrap-in-debug_assert") else s_["kind"])
+        # sites that come from an inlined new helper are numbered under the helper's name: the caller's own sites keep their ordinals
+        owner = fpath.split("::")[-1] if not s_.get("origin") else "%s>%s" % (fpath.split("::")[-1], s_["origin"])
+        base = "%s:%s:%s" % (owner, s_["kind"], s_["what"] if s_["kind"] in ("macro", "unwrap", "unwrap-in-debug_assert") else s_["kind"])
         cnt[base] = cnt.get(base, 0) + 1
         s_["key"] = "%s#%d" % (base, cnt[base])
     return ss
